@@ -80,9 +80,11 @@ inductive SearchKind | bfs | dfsr | dfsi
 
 /-- `hasattr(v, attrib) and v[attrib] == val` on a vertex.  Value class 6 stands for a sought value
     whose `__eq__` accepts everything (`unittest.mock.ANY`, a matcher object): it equals every
-    attribute value — and still only vertices that HAVE the attribute can match -/
+    attribute value — and still only vertices that HAVE the attribute can match.  Value class 8
+    stands for a value that is not equal to itself (`math.nan`, the SAME object stored on the vertex
+    and sought): the comparison is `==`, not identity, so it never matches -/
 def hasAttrVal (w : World) (attr val : Nat) (x : VId) : Bool :=
-  (w.attrs x).any (fun p => p.1 == attr && (val == 6 || p.2 == val))
+  (w.attrs x).any (fun p => p.1 == attr && (val == 6 || (p.2 == val && val != 8)))
 
 /-- … extended: `None` never attrMatch, a pseudo-error id always "attrMatch" (the exception
     propagates at that point) -/
